@@ -123,4 +123,52 @@ pub fn run(out: &mut Out, thorough: bool, seed: u64, _extra: &[String]) {
         }
         let _ = a;
     }
+    deep_rescale(out, &mut r, thorough);
+}
+
+/// Directed depth programs: square → relinearize → rescale down the whole chain on chains of mixed prime
+/// sizes, with the scale near the middle primes, so that from the second rescale on the scale is not a
+/// power of two and the recorded scale must be the correctly rounded quotient (bit-exact against the model).
+fn deep_rescale(out: &mut Out, r: &mut Rng, thorough: bool) {
+    let mut chains: Vec<(Vec<usize>, i32)> = vec![(vec![50, 34, 34, 50], 34), (vec![45, 40, 34, 50], 32), (vec![50, 38, 32, 50], 30), (vec![59, 40, 36, 45, 59], 40)];
+    for _ in 0..(if thorough { 40 } else { 4 }) {
+        let k = r.range(3, 6) as usize;
+        let b: Vec<usize> = (0..k + 1).map(|i| if i == 0 || i == k { *r.pick(&[45usize, 50, 59]) } else { *r.pick(&[30usize, 32, 34, 36, 38, 40]) }).collect();
+        let sb = *r.pick(&[30i32, 32, 34, 36]);
+        chains.push((b, sb));
+    }
+    for (bits_v, sb) in chains {
+        let n = 8usize; let row = n / 2;
+        let qs = match pick_primes(r, n, &bits_v) { Some(v) => v, None => continue };
+        let s = match make(SchemeType::CKKS, n, &qs, 0, true, None) { Some(s) => s, None => continue };
+        let ev = &s.evaluator;
+        let enc = CKKSEncoder::new(s.ctx.clone());
+        let relin = s.keygen.create_relin_keys(false);
+        let p_special = *qs.last().unwrap();
+        let v: Vec<Complex64> = (0..row).map(|_| Complex64::new(((r.below(17) as f64) - 8.0) / 8.0, ((r.below(17) as f64) - 8.0) / 16.0)).collect();
+        let mut cur = Item { ct: s.encryptor.encrypt_new(&enc.encode_c64_array_new(&v, None, 2f64.powi(sb))), v };
+        loop {
+            let cd = s.ctx.get_context_data(cur.ct.parms_id()).unwrap();
+            let lvl = cd.chain_index(); let total_bits = cd.total_coeff_modulus_bit_count();
+            if lvl == 0 { break; }
+            if !((cur.ct.scale() * cur.ct.scale()).log2() < total_bits as f64 - 1.0) { break; }
+            let step = std::panic::catch_unwind(std::panic::AssertUnwindSafe(|| {
+                let sq = ev.square_new(&cur.ct);
+                let rl = ev.relinearize_new(&sq, &relin);
+                let rs = ev.rescale_to_next_new(&rl);
+                (sq, rl, rs) }));
+            let (sq, rl, rs) = match step { Ok(x) => x, Err(_) => { let m = LAST_PANIC.with(|p| p.borrow().clone()); out.raw(&format!("!FAIL ckks_step deep :: square/relinearize/rescale on a valid operand refused: {} # panic", m.replace('\n', " "))); break; } };
+            out.case(&format!("ct_op square {} {} {} | {} | {} | {}", bits(&cur.ct), bits(&cur.ct), bits(&sq), s.ct_case(&cur.ct), s.ct_case(&cur.ct), s.ct_case(&sq)), &format!("deep-square-l{}", lvl), || "ok".to_string());
+            out.case(&format!("ct_op relinearize {} {} {} | {} | {} | {}", bits(&sq), p_special, bits(&rl), s.ct_case(&sq), s.ct_case(&sq), s.ct_case(&rl)), &format!("deep-relin-l{}", lvl), || "ok".to_string());
+            out.case(&format!("ckks_switch rescale {} {} 1 {} | {}", bits(&rl), bits(&rs), s.ct_case(&rl), s.ct_case(&rs)), &format!("deep-rescale-l{}-{}", lvl, if rl.scale().log2().fract() == 0.0 { "pow2" } else { "nonpow2" }), || "ok".to_string());
+            let nv: Vec<Complex64> = cur.v.iter().map(|x| x * x).collect();
+            let dec = enc.decode_new(&s.decryptor.decrypt_new(&rs));
+            let err = (0..row).map(|i| (dec[i] - nv[i]).norm()).fold(0.0, f64::max);
+            if rs.scale() >= 2f64.powi(18) {
+                if err <= 1.0 / 256.0 { out.raw(&format!("!OK ckks_slots deep err={:.3e} # slots-deep", err)); }
+                else { out.raw(&format!("!FAIL ckks_slots deep :: decoded slots differ from the complex shadow program by {:.3e} (scale 2^{:.1}) # slots-deep", err, rs.scale().log2())); }
+            }
+            cur = Item { ct: rs, v: nv };
+        }
+    }
 }
